@@ -259,6 +259,13 @@ Definition run_acall (c : acall) : option (list space * fval) :=
   let '(d, (specs, (keep, f))) := c in power_analyze d specs keep f.
 Definition analyze_history (calls : list acall) : list (option (list space * fval)) := map run_acall calls.
 
+(* create_power_operator keeps no state either: a sequence of calls (also with the SAME callable object whose
+   parameters changed in between) is the pure model applied to each call's own spectrum values. *)
+Definition ocall := (list space * (nat * (list nat * (nat * (list R * list R)))))%type.
+Definition run_ocall (c : ocall) : list R :=
+  let '(d, (idx, (pindex, (nbin, (p, x))))) := c in power_operator_times d idx pindex nbin p x.
+Definition operator_history (calls : list ocall) : list (list R) := map run_ocall calls.
+
 End Arith.
 
 Arguments Scalar {R} _.
